@@ -169,7 +169,7 @@ def search(ctx):
         drng = np.random.default_rng(int(rng.integers(0, 2 ** 31)))
         n = 3
         for label, theta, build, dense, proj in cases(drng, n):
-            if label.startswith(("ScaledIdentity", "Diagonal", "SoftAbs")) or "sign=-1" in label and "Triangular" in label or "is_posdef=False" in label:
+            if label.startswith(("ScaledIdentity", "Diagonal", "SoftAbs")) or "sign=-1" in label and "Triangular" in label:
                 continue
             m0 = build(theta)
             matzoo.touch(m0)
@@ -178,8 +178,11 @@ def search(ctx):
             except Exception:  # noqa: BLE001
                 pass
             sc = float(drng.choice([0.4, 3.0]))
-            for how, m1, fac in (("divided", m0 / sc, 1 / sc), ("multiplied", sc * m0, sc)):
-                if not isinstance(m1, mm.DifferentiableMatrix) or type(m1) is not type(m0):
+            variants = [("divided", m0 / sc, 1 / sc), ("multiplied", sc * m0, sc)]
+            if label.startswith("DenseDefinite("):      # a definite matrix times a negative scalar is the definite matrix of the other sign
+                variants += [("multiplied by a negative scalar", (-sc) * m0, -sc), ("divided by a negative scalar", m0 / (-sc), -1 / sc)]
+            for how, m1, fac in variants:
+                if not isinstance(m1, mm.DifferentiableMatrix) or (type(m1) is not type(m0) and fac > 0):
                     continue
                 vv = drng.standard_normal(n)
                 delta = drng.standard_normal(np.shape(theta["p"]))
